@@ -13,7 +13,7 @@ PID = "C02"
 RULE = (
     "Table-first samples (same generator as C01: groups at exactly min_freq_mod*n rows, missing values that can "
     "only be merged, modalities absent from dev, max_n_mod in {2..7}) x Binary/Continuous/MulticlassCarver x all "
-    "parameters. Oracle: direct postconditions on public outputs only: transform(X_train) has <= max_n_mod "
+    "parameters; three in eight continuous targets in a small unit (values x 2^-10 / 2^-12 / 2^-17). Oracle: direct postconditions on public outputs only: transform(X_train) has <= max_n_mod "
     "distinct non-missing labels per kept feature, each carried by >= min_freq_mod of the rows (non-missing rows "
     "when dropna=False; exact Fraction comparison), no missing output with dropna=True, missing preserved in "
     "place with dropna=False; with dev: same label set, same frequency bound, no strict inversion between the "
@@ -25,8 +25,22 @@ BUDGET = {"quick": 1200, "thorough": 60000}
 DEADLINE_S = {"quick": 200, "thorough": 3300}
 
 
+UNITS = {0: 2.0**-10, 1: 2.0**-12, 2: 2.0**-17}
+
+
+def micro_unit(t):
+    """Three in eight continuous targets are expressed in a small unit (values x 2^-10, 2^-12 or 2^-17, exact in
+    binary64): label means then differ by about 1e-4 or less, which the stated constraints (frequencies, strict rank
+    agreement between train and dev) do not care about."""
+    case, pick = t
+    if case["target"]["kind"] == "continuous" and pick in UNITS:
+        case = dict(case, target=dict(case["target"], levels=[float(v) * UNITS[pick] for v in case["target"]["levels"]], micro_unit=True))
+    return case
+
+
 def strategy(tier):
-    return fitted_case(CARVERS + ("BinaryCarver", "ContinuousCarver"), dev_modes=("none", "same", "perturbed", "independent", "independent"))
+    cases = fitted_case(CARVERS + ("BinaryCarver", "ContinuousCarver"), dev_modes=("none", "same", "perturbed", "independent", "independent"))
+    return st.tuples(cases, st.integers(0, 7)).map(micro_unit)
 
 
 def dec(x):
@@ -50,6 +64,8 @@ def check_case(case) -> Outcome:
     cfg = case["config"]
     cls = cfg["cls"]
     out.label(f"cls:{cls}")
+    if case["target"].get("micro_unit"):
+        out.label("target-in-micro-unit")
     sample = build(case)
     obj = make_object(case)
     res = fit_object(obj, case, sample)
